@@ -139,6 +139,10 @@ UNITS.append(U("C05.fe_sqr_contract", ["C05"], FM, "h_fe_sqr_contract", verify=T
                timeout=900, tier="quick", replay=False))
 UNITS.append(U("C05.sc_mul_shift", ["C05"], SM, "h_sc_mul_shift", verify=True, replace=UF, functions=["secp256k1_scalar_mul_shift_var"],
                tier="thorough", timeout=1800, replay=False, note="index/shift safety and VERIFY_CHECKs for every shift in [257,512] (the library uses 384); shift = 256 and the rounded value are residue"))
+UNITS.append(U("C05.sc_mul_shift_value", ["C05"], "harness/C05/arith_mulshift_value.c", "h_sc_mul_shift_value", replace=["secp256k1_scalar_mul_512"],
+               assumed=["secp256k1_scalar_mul_512 (value of the 512-bit product; logged only)"], functions=["secp256k1_scalar_mul_shift_var", "secp256k1_scalar_cadd_bit"],
+               tier="quick", timeout=600, min_obl=100, unwind=10, replay=False,
+               note="rounded value of mul_shift_var for every product and every shift in [257,512]; the product is an oracle"))
 UNITS.append(U("C05.fe_mul_contract.W64", ["C05"], FM, "h_fe_mul_contract", cfg="W64", verify=True, enforce=["secp256k1_fe_mul"], functions=["secp256k1_fe_mul", "secp256k1_fe_impl_mul", "secp256k1_fe_mul_inner"],
                timeout=1500, tier="thorough", replay=False, note="10x26: native products, nothing replaced"))
 UNITS.append(U("C05.fe_sqr_contract.W64", ["C05"], FM, "h_fe_sqr_contract", cfg="W64", verify=True, enforce=["secp256k1_fe_sqr"], functions=["secp256k1_fe_sqr", "secp256k1_fe_impl_sqr", "secp256k1_fe_sqr_inner"],
